@@ -53,11 +53,35 @@ def gen_scenarios(seed, tier):
                         if beh[-1][0] == "ret":
                             beh[-1] = ["ret", 1000 + u]
                             u += 1
+        if i % 9 == 8:
+            d = gen_cancel_vs_resolve(rng, i, d)
         if rng.random() < 0.3:
             # a notify() somewhere
             c = rng.randrange(len(d["clients"]))
             d["clients"][c].insert(rng.randint(0, len(d["clients"][c])), ["notify"])
         yield d
+
+
+def gen_cancel_vs_resolve(rng, i, d):
+    """several futures in the polling stage; at one virtual instant the poll function resolves the OLDEST one (its resolving call
+    deregisters it) while a client cancels a younger one: the cancel function must be consulted for the younger one - with ITS
+    delegate result - whatever the deregistration does to the list meanwhile"""
+    d = dict(d)
+    n = rng.choice([2, 3, 3])
+    t = rng.choice([2.0, 3.0])
+    lay = ["poll", {"poll_script": [["at", t, "yield1"] for _ in range(14)] + ["yield"], "interval": 1.0, "cancel_fn": True,
+                    "cancel_script": [[["ret", rng.choice([False, False, True])]]]}]
+    c0 = [["submit", "k%d" % j, [[["ret", 1000 + j]]]] for j in range(n)]
+    victim = "k%d" % rng.randrange(1, n)
+    clients = [c0, [["sleep", t], ["cancel", victim]]]
+    if rng.random() < 0.3:
+        clients.append([["sleep", t], ["cancel", "k%d" % rng.randrange(1, n)]])
+    d.update(layers=[lay], clients=clients, base=rng.choice(["simpool2", "simsync"]), tail=20.0, family="cancel-vs-resolve")
+    if rng.random() < 0.5:
+        d.update(mode="hold", p_switch=rng.choice([0.0, 0.02, 0.1]), trace_lines=True)
+    else:
+        d["trace_lines"] = True
+    return d
 
 
 def monitors(s, ctx, desc):
@@ -99,6 +123,7 @@ def monitors(s, ctx, desc):
     ok_res = {}        # delegate name -> result (success only), from the start of its completing call
     completed = set()
     resolver = {}
+    must_idx = {}        # key -> log index from which the future is certainly registered for polling
     for i, e in enumerate(s.log):
         t, k = e[0], e[1]
         if k == "daddcb>" and e[2] in dkey:
@@ -109,6 +134,7 @@ def monitors(s, ctx, desc):
             attached.add(e[2])
             if e[2] in completed and e[2] in ok_res:
                 must[dkey[e[2]]] = ok_res[e[2]]
+                must_idx.setdefault(dkey[e[2]], i)
         elif k == "dcomplete" and e[2] in dkey and str(e[3]).startswith("ok:"):
             ok_res[e[2]] = e[3][3:]
             if e[2] in attaching:
@@ -117,6 +143,7 @@ def monitors(s, ctx, desc):
             completed.add(e[2])
             if e[2] in attached and e[2] in ok_res:
                 must[dkey[e[2]]] = ok_res[e[2]]
+                must_idx.setdefault(dkey[e[2]], i)
         elif k in ("fset>", "fcancel>") and e[2] in key_of_f:
             gone_may.add(key_of_f[e[2]])
         elif k == "fset<" and e[2] in key_of_f:
@@ -222,6 +249,25 @@ def monitors(s, ctx, desc):
             if cur[t]["veto"] and e[4] is True:
                 hits.append(hit("C08/veto-ignored", "cancel() returned True although the cancel function vetoed"))
             cur.pop(t)
+    # a cancel() that RESOLVES a future which was registered for polling before the call began has found its descriptor (only the
+    # resolving call deregisters it) and therefore consulted the cancel function - on the calling thread, during the call
+    if p.get("cancel_fn"):
+        curc = {}
+        for i, e in enumerate(s.log):
+            t, k = e[0], e[1]
+            if k == "call" and e[2] == "cancel" and e[3] in key_of_f:
+                kk = key_of_f[e[3]]
+                curc[t] = {"f": e[3], "reg": must_idx.get(kk, len(s.log)) < i, "asked": False, "won": False, "i": i}
+            elif k == "ucall" and str(e[2]).startswith("cancelfn") and t in curc:
+                curc[t]["asked"] = True
+            elif k == "fstate" and e[3] == "cancel" and t in curc and e[2] == curc[t]["f"]:
+                curc[t]["won"] = True
+            elif k in ("ret", "raise") and e[2] == "cancel" and t in curc:
+                c = curc.pop(t)
+                if k == "ret" and e[4] is True and c["reg"] and c["won"] and not c["asked"]:
+                    hits.append(hit("C08/cancel-fn-bypassed", "cancel() of %s (log %d) resolved a future that was in the polling stage and returned "
+                                    "True without consulting the cancel function" % (c["f"], c["i"])))
+                    break
     # 5. prompt: no idle jump while the poll thread sleeps on its event and an eligible future has not been shown / a notify is pending
     shown_keys = set()
     pending_notify = False
